@@ -34,11 +34,12 @@ inline Plan Gen(uint64_t seed)
    std::string s = "prog 0";
    const int pre = (int) wl.below(3); if (pre) s += " S" + I(pre);     // queued before the thread is started
    if (wl.oneIn(4)) s += " P" + I(1 + wl.below(2));                     // replies queued (by the subclass) before the thread is started
+   if (wl.oneIn(8)) s += " STARTF";   // a first attempt on which the creation of the signalling sockets fails (out of descriptors): it must fail cleanly and a retry must work
    s += " START";
    const int cycles = wl.oneIn(4) ? 2 : 1;
    for (int c=0; c<cycles; c++)
    {
-      if (c > 0) {const int q = (int) wl.below(3); if (q) s += " S" + I(q); if (wl.oneIn(4)) s += " P" + I(1 + wl.below(2)); s += " START";}
+      if (c > 0) {const int q = (int) wl.below(3); if (q) s += " S" + I(q); if (wl.oneIn(4)) s += " P" + I(1 + wl.below(2)); if (wl.oneIn(8)) s += " STARTF"; s += " START";}
       const int nops = 1 + (int) wl.below(8);
       for (int i=0; i<nops; i++)
       {
@@ -218,6 +219,15 @@ inline void Exec(const Plan & plan, RunResult & res)
       for (const std::string & op : progs[0])
       {
          if (op == "Y") thr::Yield();
+         else if (op == "STARTF")
+         {
+            if (!running)
+            {
+               thr::FailSocketpairs(true); const status_t sr = t.StartInternalThread(); thr::FailSocketpairs(false);
+               if (sr.IsOK()) {running = true; sh.armed = true; sh.threadUp = true; res.stats.inc("starts"); if (TotalSent() > sh.insideLog.size()) res.stats.inc("p.started_with_queued_messages");}   // (the sockets existed already)
+                         else res.stats.inc("f.socketpair_emfile_at_start");
+            }
+         }
          else if (op == "START") {if (!running) {if (t.StartInternalThread().IsError()) thr::ReportAndExit("start_failed", "StartInternalThread failed"); running = true; sh.armed = true; sh.threadUp = true; res.stats.inc("starts"); if (TotalSent() > sh.insideLog.size()) res.stats.inc("p.started_with_queued_messages");}}
          else if ((op.size() > 1)&&(op[0] == 'S')&&(isdigit((unsigned char) op[1]))) Send(0, (int) ToI(op.substr(1)));
          else if ((op.size() > 1)&&(op[0] == 'P')&&(isdigit((unsigned char) op[1])))
